@@ -25,6 +25,44 @@ type CheckDef struct {
 	Explanation    string
 	Gen            func() error
 	RaceID         string // native replays run under -race; a detector report counts as a failure of this assertion
+	// Rotate: harness name -> m. When set, the thorough tier runs the whole
+	// instance list that Jobs("quick") returns, and the quick tier runs, per
+	// harness named here, the instances whose ordinal o satisfies
+	// (o + VERIF_SEED) % m == 0, plus the core instances (coreInstance).
+	Rotate map[string]int
+}
+
+// coreInstance: instances of rotated harnesses that run in every quick run
+// (the messages most files consist of, and the unknown message number).
+func coreInstance(j Job) bool {
+	g, ok := j.Params["gmn"]
+	if !ok {
+		return false
+	}
+	switch g {
+	case 0, 18, 19, 20, 21, 23, 34, 0xFFF0:
+		return j.Harness != "H02b" || g == 20
+	}
+	return false
+}
+
+func rotateJobs(jobs []Job, rot map[string]int, seed int) []Job {
+	var out []Job
+	ord := map[string]int{}
+	for _, j := range jobs {
+		name := j.Pkg + "." + j.Harness
+		m, ok := rot[name]
+		if !ok {
+			out = append(out, j)
+			continue
+		}
+		o := ord[name]
+		ord[name]++
+		if coreInstance(j) || (o+seed)%m == 0 {
+			out = append(out, j)
+		}
+	}
+	return out
 }
 
 var checkDefs = map[string]*CheckDef{}
@@ -177,6 +215,7 @@ func msgJobs(meta map[string]int, pkg, h string, extra ...interface{}) []Job {
 func init() {
 	reg(&CheckDef{
 		ID:   "C01",
+		Rotate: map[string]int{"fit.H01a": 2, "fit.H01s": 2},
 		Meta: "fit.Hmeta",
 		Outside: []string{"byte strings outside H01a's single-field definitions and the stream model (fully symbolic streams of more than a few bytes explode: > 10^4 paths at 12 data bytes, almost all early rejections)",
 			"'no hang' is covered as 'every loop terminated within the unwinding bound (4200 iterations per loop head) on every explored path'; readers that violate the io.Reader contract (0 bytes without error, forever) are outside the claim",
@@ -420,6 +459,7 @@ func init() {
 func init() {
 	reg(&CheckDef{
 		ID:   "C02",
+		Rotate: map[string]int{"fit.H02a": 2, "fit.H02b": 2},
 		Meta: "fit.Hmeta",
 		Jobs: func(tier string, meta map[string]int) []Job {
 			allstr := 0
@@ -719,6 +759,7 @@ func init() {
 	})
 	reg(&CheckDef{
 		ID: "C11",
+		Rotate: map[string]int{"fit.H11a": 2},
 		Jobs: func(tier string, meta map[string]int) []Job {
 			var js []Job
 			n := 2
@@ -760,6 +801,7 @@ func init() {
 	})
 	reg(&CheckDef{
 		ID: "C16",
+		Rotate: map[string]int{"fit.H16a": 2},
 		Jobs: func(tier string, meta map[string]int) []Job {
 			var js []Job
 			nc := 2
@@ -791,6 +833,7 @@ func init() {
 func init() {
 	reg(&CheckDef{
 		ID:   "C08",
+		Rotate: map[string]int{"fit.H08d": 2},
 		Meta: "fit.Hmeta",
 		Jobs: func(tier string, meta map[string]int) []Job {
 			var js []Job
